@@ -105,4 +105,16 @@ CHECKS["C14"] = dict(
          "probability exactly 0 is starved. The run is inconclusive unless >= 50% of the satisfiable calls had a really narrowed range.",
     design_ref="DESIGN.md section 3, C14; section 2.3 M2/M3", note=_SOLVER_NOTE + " Exact starvation verdicts only from complete choice "
     "enumerations (<= 6000 paths quick); known findings F8, F17, F24r are genuine C14 defects classified by mechanism.")
+
+CHECKS["C15"] = dict(
+    level="exploration",
+    technique="runtime monitors: reference meaning of dist (membership in the non-zero-weight entries) by value check + solver-formula monitor; choice-point injection into RandState and into the module-level random of distselect/randselect (complete enumeration = exact probabilities)",
+    text="(a) dist programs with values, ranges, zero weights, weights supplied by non-random fields that change between calls, dist under "
+         "if, two dists on one field and accompanying relational constraints: every call is judged by reference evaluation and pointwise "
+         "formula equivalence (zero-weight and unlisted values are excluded from the formula, whatever else constrains the field). (b) "
+         "'pure' dist programs: after a history that changes the weights, the last randomize() is run once per path of RandState choice "
+         "points; the exact probability of every value must equal sum w_i/total * 1/|entry_i|. (c) distselect / randselect with weight "
+         "vectors including zeros, enumerated completely through a choice-point proxy for the module-level random.",
+    design_ref="DESIGN.md section 3, C15; section 2.3 M3", note=_SOLVER_NOTE + " Frequencies are only judged where nothing else constrains "
+    "the field (as the property states) and only from complete enumerations.")
 NOT_YET = {}
